@@ -455,5 +455,8 @@ fn main() {
     run::<DMat4>(&mut rep);
     rep.sample(json!({"space": "Mat4/det,transpose,adjugate", "matrix_cols": [1, 0, 1, 1, 0, 1, 1, 0, 1, 1, 0, 1, 0, 1, 1, 1], "oracle": "i128 Laplace expansion; inverse*det == adjugate within 2 eps"}));
     rep.sample(json!({"space": "Mat3A/real", "matrix": "Q3*D(cond 1e3)*Q5^T*37.5", "oracle": "f64 adj/det, envelope K eps (S_adj/|det| + |inv| S_det/|det|), residuals M*inv-I, inv*M-I"}));
+    // every operator trait impl of the tree (inventory from the rustdoc JSON): reference, assign and
+    // scalar forms agree with the by-value form decided above
+    harness::opforms::run(&mut rep, "mat", harness::opforms::OPFORMS_MAT);
     std::process::exit(rep.finish());
 }
